@@ -389,3 +389,279 @@ Proof.
   - split; [reflexivity|exact I].
   - exfalso. apply Hnc. reflexivity.
 Qed.
+
+(* ---------- static_serves_file ---------- *)
+
+(* the answer on interface i, and what that interface reads of the request *)
+Definition run_static (i : C14.Model.iface) : C07.Model.kind -> scfg -> senv -> areq -> state -> obs :=
+  match i with C14.Model.Wsgi => static_wsgi | C14.Model.Asgi => static_asgi end.
+
+Definition cond_of (i : C14.Model.iface) : areq -> bytes * bytes :=
+  match i with C14.Model.Wsgi => wsgi_cond | C14.Model.Asgi => asgi_cond end.
+
+Definition range_of (i : C14.Model.iface) : areq -> option bytes * option bytes :=
+  match i with C14.Model.Wsgi => wsgi_range | C14.Model.Asgi => asgi_range end.
+
+(* C14's decision for the regular file [id]: If-None-Match against the ETag when the header is not
+   empty, otherwise If-Modified-Since against int(st_ctime) *)
+Definition c14_not_modified (e : senv) (id : N) (inm ims : bytes) : bool :=
+  let f := fstate_of id (se_meta e id) in
+  match inm with
+  | [] => C14.Model.if_modified_since (Z.of_N (se_isec e (C14.Model.f_ctime f))) (parse_ims e ims)
+  | _ => C14.Model.if_none_match (C14.Model.etag_of (se_fkey e) (se_sha e) f) inm
+  end.
+
+(* C07: the served path [p] is the lexical resolution [t] of the request path below the directory
+   (Pages: or t + ".html" when nothing is at t, or the index page of the directory t for a URL
+   ending in "/"), and it is the regular file [id] *)
+Definition resolution (k : C07.Model.kind) (fs : C07.Model.fsys) (dir path p : bytes) (id : N) : Prop :=
+  exists t, C07.Model.lexical_target dir path = Some t /\ fs p = C07.Model.NFile id /\
+    match k with
+    | C07.Model.KFiles => p = t
+    | C07.Model.KPages =>
+        p = t \/
+        (p = t ++ C07.Model.DOT_HTML /\ t <> dir /\ (fs t = C07.Model.NAbsent \/ fs t = C07.Model.NError)) \/
+        (p = C07.Proofs.with_slash t ++ C07.Model.INDEX_HTML /\ ends_slash path = true /\
+         (ends_slash t = true \/ fs t = C07.Model.NDir))
+    end.
+
+(* Response(304) with the appended headers *)
+Definition headers_304 (c : scfg) : list header :=
+  [(lit "cache-control", sc_cacheability c ++ lit ", max-age=" ++ dec_z (sc_max_age c));
+   (lit "vary", lit "Accept-Encoding, User-Agent, Cookie, Referer");
+   (lit "content-length", lit "0")].
+
+Definition serves_file_statement (i : C14.Model.iface) (k : C07.Model.kind) (c : scfg) (e : senv)
+    (rq : areq) (s : state) (path : bytes) : Prop :=
+  let fs := se_fs e in
+  let dir := sc_dir c in
+  let ans := run_static i k c e rq s in
+  match fst (C07.Model.app_call k fs (se_cwd e) dir path) with
+  | C07.Model.Served p id =>
+      resolution k fs dir path p id /\
+      let content := fm_content (se_meta e id) in
+      let '(inm, ims) := cond_of i rq in
+      if c14_not_modified e id inm ims
+      then ans = OResp 304 (headers_304 c) []
+      else
+        let '(rg, ifr) := range_of i rq in
+        let fr := file_req_of e (is_head rq) rg ifr p id in
+        let st := w_status (wsgi_file fr) in
+        fr_file fr = content /\
+        ans = OResp st (file_headers (cache_headers c) fr (w_headers (wsgi_file fr))) (expected_body fr) /\
+        (st = 200 \/ st = 206 \/ st = 400 \/ st = 416) /\
+        (st = 200 -> is_head rq = false -> expected_body fr = content) /\
+        (forall s0 e0, decide fr = Single s0 e0 ->
+           st = 206 /\ s0 < e0 <= length content /\
+           (is_head rq = false -> expected_body fr = slice content s0 e0)) /\
+        (forall l, decide fr = Several l ->
+           st = 206 /\ (is_head rq = false -> expected_body fr = flat_map (part fr) l ++ closing (fr_boundary fr))) /\
+        (st = 400 \/ st = 416 ->
+           (exists msg, decide fr = Reject400 msg /\ expected_body fr = if is_head rq then [] else msg) \/
+           (decide fr = Reject416 /\ expected_body fr = []))
+  | C07.Model.Redirect loc =>
+      k = C07.Model.KPages /\ loc = path ++ [SL] /\ ends_slash path = false /\
+      (exists t, C07.Model.lexical_target dir path = Some t /\ fs t = C07.Model.NDir) /\
+      (ans = OHttp 400 \/
+       exists location, ans = OResp 307 [(lit "location", location); (lit "content-length", lit "0")] [])
+  | C07.Model.NotFound => ans = OHttp 404
+  | C07.Model.Crash => False
+  end.
+
+Lemma not_modified_spec e k i id inm ims : not_modified e k i id inm ims = c14_not_modified e id inm ims.
+Proof.
+  unfold not_modified, c14_not_modified, C14.Model.serve, C14.Model.file_response.
+  destruct k, i; destruct inm as [|x inm];
+    try (destruct (C14.Model.if_modified_since _ _); reflexivity);
+    destruct (C14.Model.if_none_match _ _); reflexivity.
+Qed.
+
+Lemma wsgi_url_raises (rq : areq) (s : state) e :
+  known_scheme rq -> wsgi_url rq s = C18.Model.Raise e -> e = C18.Model.ValueError.
+Proof.
+  intros Hk. unfold wsgi_url. destruct (redecode _) as [pth|]; [|intro H; injection H as <-; reflexivity].
+  apply with_query_raises. intros q e'.
+  destruct (C18.Model.environ_url _) as [x|] eqn:E; [|discriminate E].
+  rewrite (C18.Properties.wsgi_asgi_same _ _ E). apply scope_url_raises. exact Hk.
+Qed.
+
+Lemma redirect_shape render u :
+  (forall e, u = C18.Model.Raise e -> e = C18.Model.ValueError) ->
+  (forall loc, render (RRedirect (bare 307) loc) =
+               Some (307, [(lit "location", loc); (lit "content-length", lit "0")], [])) ->
+  redirect_answer render u = OHttp 400 \/
+  exists location, redirect_answer render u = OResp 307 [(lit "location", location); (lit "content-length", lit "0")] [].
+Proof.
+  intros Hu Hr. unfold redirect_answer. destruct u as [u0|e0]; cbn [C18.Model.bind].
+  - destruct (C18.Model.replace u0 (slash_kwargs u0)) as [u'|ex] eqn:E.
+    + right. eexists. rewrite Hr. reflexivity.
+    + left. rewrite (replace_slash_raises _ _ E). reflexivity.
+  - left. rewrite (Hu e0 eq_refl). reflexivity.
+Qed.
+
+(* both __call__ methods as one function of how the interface renders a response and builds the URL *)
+Definition generic_answer (render : recipe -> option (nat * list header * bytes)) (u : C18.Model.res C18.Model.url)
+    (k : C07.Model.kind) (c : scfg) (e : senv) (rq : areq) (path inm ims : bytes) (rg ifr : option bytes) : obs :=
+  match fst (C07.Model.app_call k (se_fs e) (se_cwd e) (sc_dir c) path) with
+  | C07.Model.Served p id =>
+      if c14_not_modified e id inm ims then obs_of (render (r304 c))
+      else let fr := file_req_of e (is_head rq) rg ifr p id in
+           file_answer (cache_headers c) fr (render (RFile fr))
+  | C07.Model.Redirect _ => redirect_answer render u
+  | C07.Model.NotFound => OHttp 404
+  | C07.Model.Crash => OCrash
+  end.
+
+Lemma wsgi_generic k c e rq s :
+  static_wsgi k c e rq s =
+  generic_answer wsgi_response (wsgi_url rq s) k c e rq (C09.Model.get (C09.Model.path (s_req s)))
+                 (fst (wsgi_cond rq)) (snd (wsgi_cond rq)) (fst (wsgi_range rq)) (snd (wsgi_range rq)).
+Proof.
+  unfold static_wsgi, generic_answer, C07.Model.wsgi_call.
+  destruct (wsgi_cond rq) as [inm ims]. destruct (wsgi_range rq) as [rg ifr]. cbn [fst snd].
+  destruct (fst (C07.Model.app_call _ _ _ _ _)); try reflexivity.
+  rewrite not_modified_spec. reflexivity.
+Qed.
+
+Lemma asgi_generic k c e rq s path :
+  C09.Model.lifespan (s_req s) = false -> C09.Model.path (s_req s) = Some path ->
+  static_asgi k c e rq s =
+  generic_answer asgi_response (asgi_url rq s path) k c e rq path
+                 (fst (asgi_cond rq)) (snd (asgi_cond rq)) (fst (asgi_range rq)) (snd (asgi_range rq)).
+Proof.
+  intros Hl Hp. unfold static_asgi, generic_answer, C07.Model.asgi_call. rewrite Hl, Hp.
+  destruct (asgi_cond rq) as [inm ims]. destruct (asgi_range rq) as [rg ifr]. cbn [fst snd].
+  destruct (fst (C07.Model.app_call _ _ _ _ _)); try reflexivity.
+  rewrite not_modified_spec. reflexivity.
+Qed.
+
+Lemma generic_serves render u k c e rq path inm ims rg ifr :
+  C07.Model.wf_dir (sc_dir c) = true ->
+  (k = C07.Model.KPages -> se_fs e (sc_dir c ++ SL :: C07.Model.INDEX_HTML) <> C07.Model.NDir) ->
+  render (r304 c) = Some (304, headers_304 c, []) ->
+  (forall fr, 1 <= fr_chunk fr ->
+     render (RFile fr) = Some (w_status (wsgi_file fr), w_headers (wsgi_file fr), expected_body fr)) ->
+  (forall loc, render (RRedirect (bare 307) loc) =
+               Some (307, [(lit "location", loc); (lit "content-length", lit "0")], [])) ->
+  (forall e0, u = C18.Model.Raise e0 -> e0 = C18.Model.ValueError) ->
+  let fs := se_fs e in
+  let dir := sc_dir c in
+  let ans := generic_answer render u k c e rq path inm ims rg ifr in
+  match fst (C07.Model.app_call k fs (se_cwd e) dir path) with
+  | C07.Model.Served p id =>
+      resolution k fs dir path p id /\
+      let content := fm_content (se_meta e id) in
+      if c14_not_modified e id inm ims
+      then ans = OResp 304 (headers_304 c) []
+      else
+        let fr := file_req_of e (is_head rq) rg ifr p id in
+        let st := w_status (wsgi_file fr) in
+        fr_file fr = content /\
+        ans = OResp st (file_headers (cache_headers c) fr (w_headers (wsgi_file fr))) (expected_body fr) /\
+        (st = 200 \/ st = 206 \/ st = 400 \/ st = 416) /\
+        (st = 200 -> is_head rq = false -> expected_body fr = content) /\
+        (forall s0 e0, decide fr = Single s0 e0 ->
+           st = 206 /\ s0 < e0 <= length content /\
+           (is_head rq = false -> expected_body fr = slice content s0 e0)) /\
+        (forall l, decide fr = Several l ->
+           st = 206 /\ (is_head rq = false -> expected_body fr = flat_map (part fr) l ++ closing (fr_boundary fr))) /\
+        (st = 400 \/ st = 416 ->
+           (exists msg, decide fr = Reject400 msg /\ expected_body fr = if is_head rq then [] else msg) \/
+           (decide fr = Reject416 /\ expected_body fr = []))
+  | C07.Model.Redirect loc =>
+      k = C07.Model.KPages /\ loc = path ++ [SL] /\ ends_slash path = false /\
+      (exists t, C07.Model.lexical_target dir path = Some t /\ fs t = C07.Model.NDir) /\
+      (ans = OHttp 400 \/
+       exists location, ans = OResp 307 [(lit "location", location); (lit "content-length", lit "0")] [])
+  | C07.Model.NotFound => ans = OHttp 404
+  | C07.Model.Crash => False
+  end.
+Proof.
+  intros Hwf Hidx Hr304 HrF HrR Hu. cbv zeta. unfold generic_answer.
+  pose proof (no_crash k (se_fs e) (se_cwd e) (sc_dir c) path Hwf) as Hnc.
+  destruct (fst (C07.Model.app_call k (se_fs e) (se_cwd e) (sc_dir c) path)) as [p id|loc| |] eqn:Eo.
+  - (* served *)
+    split.
+    { unfold resolution. destruct k; cbn [C07.Model.app_call] in Eo.
+      - destruct (C07.Properties.serves_resolved_files _ _ _ _ _ _ Hwf Eo) as [Ht Hf].
+        exists p. split; [exact Ht|]. split; [exact Hf|reflexivity].
+      - destruct (C07.Properties.serves_resolved_pages _ _ _ _ _ _ Hwf (Hidx eq_refl) Eo) as (t & Ht & Hf & Halt).
+        exists t. split; [exact Ht|]. split; [exact Hf|exact Halt]. }
+    destruct (c14_not_modified e id inm ims).
+    + rewrite Hr304. reflexivity.
+    + set (fr := file_req_of e (is_head rq) rg ifr p id).
+      rewrite (HrF fr default_chunk_pos). cbn [file_answer].
+      destruct (C02.Properties.status_decision fr) as (_ & H200 & H206 & H400 & H416).
+      split; [reflexivity|]. split; [reflexivity|].
+      assert (Hhead : fr_head fr = is_head rq) by reflexivity.
+      split; [|split; [|split; [|split]]].
+      * unfold wsgi_file. destruct (decide fr); cbn [w_status]; auto.
+      * intros Hst Hh. apply H200 in Hst. unfold expected_body. rewrite Hhead, Hh, Hst. reflexivity.
+      * intros s0 e0 Hd. split; [apply H206; left; exists s0, e0; exact Hd|].
+        destruct (C02.Properties.single_range_exact fr s0 e0 Hd) as (Hb & _ & Hbody).
+        split; [exact Hb|]. intro Hh. apply Hbody. rewrite Hhead. exact Hh.
+      * intros l Hd. split; [apply H206; right; exists l; exact Hd|].
+        intro Hh. unfold expected_body. rewrite Hhead, Hh, Hd. reflexivity.
+      * intros Hst. unfold expected_body. rewrite Hhead.
+        destruct (decide fr) as [|s0 e0|l|msg|] eqn:Ed.
+        -- exfalso. assert (H : w_status (wsgi_file fr) = 200) by (apply H200; reflexivity).
+           rewrite H in Hst. destruct Hst; discriminate.
+        -- exfalso. assert (H : w_status (wsgi_file fr) = 206) by (apply H206; left; exists s0, e0; reflexivity).
+           rewrite H in Hst. destruct Hst; discriminate.
+        -- exfalso. assert (H : w_status (wsgi_file fr) = 206) by (apply H206; right; exists l; reflexivity).
+           rewrite H in Hst. destruct Hst; discriminate.
+        -- left. exists msg. split; reflexivity.
+        -- right. split; [reflexivity|]. destruct (is_head rq); reflexivity.
+  - (* redirect *)
+    assert (Hk : k = C07.Model.KPages).
+    { destruct k; [|reflexivity]. cbn [C07.Model.app_call] in Eo.
+      destruct (C07.Properties.not_found_otherwise_files (se_fs e) (se_cwd e) (sc_dir c) path Hwf)
+        as [H|(t & id & _ & _ & H)]; rewrite H in Eo; discriminate Eo. }
+    subst k. cbn [C07.Model.app_call] in Eo.
+    destruct (C07.Properties.redirect_then_index _ _ _ _ _ Hwf Eo) as (Hloc & Hsl & t & Ht & Hd & _).
+    split; [reflexivity|]. split; [exact Hloc|]. split; [exact Hsl|].
+    split; [exists t; split; assumption|].
+    apply redirect_shape; assumption.
+  - reflexivity.
+  - apply Hnc. reflexivity.
+Qed.
+
+Lemma wsgi_render_facts (c : scfg) :
+  wsgi_response (r304 c) = Some (304, headers_304 c, []) /\
+  (forall loc, wsgi_response (RRedirect (bare 307) loc) =
+               Some (307, [(lit "location", loc); (lit "content-length", lit "0")], [])).
+Proof. split; [reflexivity|intro loc; reflexivity]. Qed.
+
+Lemma asgi_render_facts (c : scfg) :
+  asgi_response (r304 c) = Some (304, headers_304 c, []) /\
+  (forall loc, asgi_response (RRedirect (bare 307) loc) =
+               Some (307, [(lit "location", loc); (lit "content-length", lit "0")], [])).
+Proof. split; [reflexivity|intro loc; reflexivity]. Qed.
+
+Theorem static_serves_file_proof (i : C14.Model.iface) (k : C07.Model.kind) (c : scfg) (e : senv)
+    (rq : areq) (s : state) (path : bytes) :
+  C07.Model.wf_dir (sc_dir c) = true ->
+  (k = C07.Model.KPages -> se_fs e (sc_dir c ++ SL :: C07.Model.INDEX_HTML) <> C07.Model.NDir) ->
+  known_scheme rq ->
+  C09.Model.lifespan (s_req s) = false -> C09.Model.path (s_req s) = Some path ->
+  serves_file_statement i k c e rq s path.
+Proof.
+  intros Hwf Hidx Hk Hl Hp. unfold serves_file_statement. cbv zeta.
+  destruct i; cbn [run_static cond_of range_of].
+  - rewrite wsgi_generic, Hp. cbn [C09.Model.get].
+    destruct (wsgi_render_facts c) as [H1 H2].
+    pose proof (generic_serves wsgi_response (wsgi_url rq s) k c e rq path
+                  (fst (wsgi_cond rq)) (snd (wsgi_cond rq)) (fst (wsgi_range rq)) (snd (wsgi_range rq))
+                  Hwf Hidx H1 (fun fr Hc => proj1 (file_exact fr Hc)) H2
+                  (fun e0 => wsgi_url_raises rq s e0 Hk)) as G.
+    cbv zeta in G.
+    destruct (wsgi_cond rq) as [inm ims]. destruct (wsgi_range rq) as [rg ifr]. exact G.
+  - rewrite (asgi_generic k c e rq s path Hl Hp).
+    destruct (asgi_render_facts c) as [H1 H2].
+    pose proof (generic_serves asgi_response (asgi_url rq s path) k c e rq path
+                  (fst (asgi_cond rq)) (snd (asgi_cond rq)) (fst (asgi_range rq)) (snd (asgi_range rq))
+                  Hwf Hidx H1 (fun fr Hc => proj2 (file_exact fr Hc)) H2
+                  (fun e0 => asgi_url_raises rq s path e0 Hk)) as G.
+    cbv zeta in G.
+    destruct (asgi_cond rq) as [inm ims]. destruct (asgi_range rq) as [rg ifr]. exact G.
+Qed.
